@@ -134,6 +134,14 @@ var slices = map[string]slice{
 		dnames: []string{"/a", "/a/b"}, dfaces: []uint64{fwsim.N2}, dtoks: []string{"none", "echo0"}, dfresh: []bool{false},
 		tops: []tOp{t100},
 	},
+	// a handful of ops that interact (two faces on one name, a CanBePrefix + token variant, Data by
+	// name and by token, a reaper tick, expiry): explored DEEP and WITHOUT state de-duplication, so
+	// that neither a too coarse canonical form nor state hidden from it can prune a history
+	"tiny": {
+		iextra: []iOp{{face: fwsim.L1, name: "/a"}, {face: fwsim.N3, name: "/a"}, {face: fwsim.N3, name: "/a", cbp: true, tok: true}},
+		dextra: []dOp{{face: fwsim.N2, name: "/a"}, {face: fwsim.N2, name: "/a", tok: "echo0"}},
+		tops:   []tOp{t100, t5s},
+	},
 	"chain": {
 		inames: []string{"/a", "/a/b"}, ifaces: []uint64{fwsim.L1, fwsim.N3}, shapes: []string{"", "cbp", "mbf", "tok", "short", "dup", "cbp+tok"},
 		dnames: []string{"/a", "/a/b"}, dfaces: []uint64{fwsim.N2}, dtoks: []string{"none", "echo0", "echo1", "foreign", "four"}, dfresh: []bool{false},
@@ -687,6 +695,10 @@ func configs(th bool) []explore.Config {
 		add("tokens", "br", "cs1", "ht t1", 4)     // the driven thread is thread 1 of 2
 		add("core", "br", "cs1", "tree", 6)
 		add("core", "mc", "cs0", "ht", 6)
+		// audit of the canonical form, and a deep history search, both WITHOUT de-duplication
+		c = append(c, explore.Config{Name: "audit(no dedup) core br cs1 tree", BuildName: "core br cs1 tree", MaxDepth: devDepth(4), MaxDev: -1, NoDedup: true})
+		c = append(c, explore.Config{Name: "history search (no dedup) tiny br cs1 tree", BuildName: "tiny br cs1 tree", MaxDepth: devDepth(6), MaxDev: -1, NoDedup: true})
+		c = append(c, explore.Config{Name: "history search (no dedup) tiny mc cs0 ht", BuildName: "tiny mc cs0 ht", MaxDepth: devDepth(6), MaxDev: -1, NoDedup: true})
 		chain("mc", "cs1", "tree", 7, 1)
 		chain("br", "cs0", "ht", 7, 1)
 		return c
@@ -710,6 +722,10 @@ func configs(th bool) []explore.Config {
 				add("core", st, cs, fib, 7)
 			}
 		}
+	}
+	c = append(c, explore.Config{Name: "audit(no dedup) core br cs1 tree", BuildName: "core br cs1 tree", MaxDepth: 5, MaxDev: -1, NoDedup: true})
+	for _, b := range []string{"tiny br cs1 tree", "tiny mc cs0 ht", "tiny mc cs1 tree", "tiny br cs0 ht"} {
+		c = append(c, explore.Config{Name: "history search (no dedup) " + b, BuildName: b, MaxDepth: 7, MaxDev: -1, NoDedup: true})
 	}
 	// the other arrival path (real NDNLPLinkService) and the other thread identity
 	for _, st := range []string{"br", "mc"} {
